@@ -134,6 +134,7 @@ type e1Run struct {
 	nodePat  []int    // patches applied per node
 	// C11
 	secrets [][]byte
+	tainted map[string]bool
 }
 
 func (e1Engine) Run(p *Plan) *Result {
@@ -356,7 +357,7 @@ func (r *e1Run) expect(set map[int]bool) docExpect {
 			e.Deleted = true
 		}
 	}
-	for _, f := range userFields {
+	for _, f := range allFields() {
 		if f.Counter {
 			sum := 0.0
 			any := false
@@ -391,9 +392,11 @@ func (r *e1Run) expect(set map[int]bool) docExpect {
 
 // ---- observation --------------------------------------------------------------
 
-const userSel = "_docID _deleted name age flag ratio tags points score"
-
 func (r *e1Run) dump(node int, showDeleted bool) (map[string]map[string]any, string) {
+	userSel := "_docID _deleted"
+	for _, f := range r.nodeFields(node) {
+		userSel += " " + f.Name
+	}
 	q := "query { User { " + userSel + " } }"
 	if showDeleted {
 		q = "query { User(showDeleted: true) { " + userSel + " } }"
@@ -460,8 +463,8 @@ func (r *e1Run) checkNode(step, node int, why string) {
 			r.res.violate(r.pid("C02"), "resurrected", "live-listing", step, "node %d doc %d: in plain listing=%v but deleted=%v (%s)", node, slot, inLive, e.Deleted, why)
 			return
 		}
-		for _, f := range userFields {
-			if r.hiddenField(node, f.Name) {
+		for _, f := range r.nodeFields(node) {
+			if r.hiddenField(node, slot, f.Name) {
 				continue
 			}
 			got := canon(row[f.Name])
@@ -505,7 +508,6 @@ func (r *e1Run) pid(home string) string {
 	return r.p.Prop
 }
 
-func (r *e1Run) hiddenField(node int, f string) bool { return false }
 
 // historyClass classifies the DAG situation of (node, doc) for finding identity.
 func (r *e1Run) historyClass(node, slot int) string {
@@ -661,7 +663,7 @@ func (r *e1Run) doCreate(step, node, slot int) {
 	writes := map[string]string{}
 	incs := map[string]float64{}
 	for k, w := range wants {
-		if f := fieldByName(k); f.Counter {
+		if f := fieldByName(k); f != nil && f.Counter {
 			var v float64
 			fmt.Sscan(w, &v)
 			incs[k] = v
@@ -778,7 +780,7 @@ func (r *e1Run) doUpdate(step, node, slot, fsel, vsel int) {
 	r.checkDAG(step, node, "local update")
 }
 
-func (r *e1Run) writableFields(node int) []fieldSpec { return userFields }
+func (r *e1Run) writableFields(node int) []fieldSpec { return r.nodeFields(node) }
 
 func (r *e1Run) doDelete(step, node, slot int) {
 	set := r.mset(node, slot)
@@ -882,6 +884,12 @@ func (r *e1Run) deliver(step int, c *mCommit, to int) {
 			"merge of commit#%d (%s) on node %d failed: %v", c.Idx, cidShort(c.Cid), to, err)
 		return
 	}
+	newly := map[int]bool{}
+	r.ancestors(c.Idx, newly)
+	for k := range set {
+		delete(newly, k)
+	}
+	r.taintOnMerge(to, newly)
 	r.ancestors(c.Idx, set)
 	synctest.Wait()
 	target.TakeUpdates()
@@ -986,7 +994,6 @@ func (r *e1Run) checkConverged(step int) {
 	r.res.Stats["converged_checked"]++
 }
 
-func (r *e1Run) projectCommon(m map[string]map[string]any) map[string]map[string]any { return m }
 
 func (r *e1Run) divergeClass() string {
 	// classify by whether any node ever had heads at different heights
